@@ -18,8 +18,8 @@ DOCS = {
     "fixtok": (appscen.CONTENT["fixtok"], [appscen.FIXED["fixtok"]]),
     # two write-backs: after pass 0 (MD009) and after pass 1 (MD012)
     "fix2": (appscen.CONTENT["fix2"], [b"# Title\n\nSome text.  \n\n\n\nMore.\n", appscen.FIXED["fix2"]]),
-    "big": (b"# Title\n\n" + b"".join(b"Line %d has trailing spaces.   \n\n" % i for i in range(400)),
-            [b"# Title\n\n" + b"".join(b"Line %d has trailing spaces.  \n\n" % i for i in range(400))]),
+    "big": (b"# Title\n" + b"".join(b"\nLine %d has trailing spaces.   \n" % i for i in range(400)),
+            [b"# Title\n" + b"".join(b"\nLine %d has trailing spaces.  \n" % i for i in range(400))]),
 }
 _SYSCALL = re.compile(r"^(\d+)\s+(\w+)\((.*)$")
 
